@@ -98,22 +98,54 @@ def install():
             elif type(val).__module__.startswith("multiprocessing.synchronize"):
                 raise HarnessError(f"attachment failed: {name}.{attr} is a real multiprocessing primitive")
     MODS["module_level_locks"] = n_locks
-    _expect(agg, "os", "module")
-    _expect(agg, "Path", "callable")
-    _expect(ev, "perf_counter", "callable")
-    _expect(tm, "time", "module")
-    for mod in (agg, st):
-        if "open" in vars(mod) and vars(mod)["open"] is not seams.sim_open:
-            raise HarnessError(f"{mod.__name__} defines its own open(); file seam cannot attach")
+    # the file, path, os, atexit and clock seams are attached to EVERY module of the package by
+    # what a global is bound to, not by a fixed list of names: a refactoring may move the I/O into
+    # another module, read the clock as time.perf_counter(), use Path.open() instead of open(), ...
+    import atexit as _atexit
+    import os as _os
+    import pathlib
+    import time as _time
 
-    agg.open = seams.sim_open
-    st.open = seams.sim_open
-    agg.os = seams.OsProxy()
-    if hasattr(agg, "atexit"):  # a refactoring may have replaced atexit by other clean-up means
-        agg.atexit = seams.AtexitProxy()
-    agg.Path = seams.SimPath
-    if hasattr(st, "Path"):
-        st.Path = seams.SimPath
+    os_proxy, atexit_proxy, time_proxy = seams.OsProxy(), seams.AtexitProxy(), seams.TimeProxy()
+    attached = {"open": 0, "os": 0, "Path": 0, "atexit": 0, "time": 0, "perf_counter": 0}
+    for name, mod in sorted(sys.modules.items()):
+        if mod is None or not (name == "panoptica" or name.startswith("panoptica.")):
+            continue
+        g = vars(mod)
+        if "open" in g and g["open"] is not seams.sim_open and not getattr(g["open"], "__module__", "") in ("io", "builtins"):
+            raise HarnessError(f"{name} defines its own open(); file seam cannot attach")
+        g["open"] = seams.sim_open  # shadows the builtin inside this module only
+        attached["open"] += 1
+        for attr, val in list(g.items()):
+            if val is _os:
+                g[attr] = os_proxy
+                attached["os"] += 1
+            elif val is pathlib.Path or val is pathlib.PosixPath:
+                g[attr] = seams.SimPath
+                attached["Path"] += 1
+            elif val is _atexit:
+                g[attr] = atexit_proxy
+                attached["atexit"] += 1
+            elif val is _time:
+                g[attr] = time_proxy
+                attached["time"] += 1
+            elif val is _time.perf_counter or val is _time.monotonic:
+                g[attr] = seams.sim_perf_counter
+                attached["perf_counter"] += 1
+            elif val is _time.time:
+                g[attr] = time_proxy.time
+                attached["time"] += 1
+            elif val is _os.remove or val is _os.unlink:
+                g[attr] = os_proxy.remove
+            elif val is _os.replace:
+                g[attr] = os_proxy.replace
+            elif val is _os.rename:
+                g[attr] = os_proxy.rename
+    MODS["attached"] = attached
+    if not attached["os"] or not attached["Path"]:
+        raise HarnessError(f"attachment failed: no os / Path reference found in the package ({attached})")
+    if not (attached["time"] or attached["perf_counter"]):
+        raise HarnessError(f"attachment failed: no clock reference found in the package ({attached})")
     # every module-level reference to multiprocessing's Pool inside the package, wherever a
     # refactoring may have moved it
     import multiprocessing
@@ -133,8 +165,6 @@ def install():
     if not rebound:
         raise HarnessError("attachment failed: no module of the package refers to multiprocessing.Pool")
     MODS["pool_refs"] = rebound
-    ev.perf_counter = seams.sim_perf_counter
-    tm.time = seams.TimeProxy()
 
     # observation seam: entry / exit of Panoptica_Evaluator.evaluate
     cls = ev.Panoptica_Evaluator
